@@ -142,7 +142,7 @@ async def run_history(backend, history):
 
 class Replace(Sub):
     name = "replace"
-    examples = {"quick": 2000, "thorough": 60000}
+    examples = {"quick": 2000, "thorough": 16000}
     shards = {"quick": 12, "thorough": 16}
     rule = RULE
 
